@@ -53,6 +53,14 @@ theorem continued_axis (c : Cfg) (dt : Q) (n : Nat) (s s' : St) (t0 : Q) (h0 : l
   simp only [h0] at h
   exact loop_times c dt _ s s' h
 
+/-- the appended instants depend on the powertrain's recorded axis only — not on the solver-private state (the lock
+    flag of the `Solver` object that happens to be used): two `Solver` objects used in turn on one powertrain both
+    continue from the last recorded instant -/
+theorem continued_axis_any_solver (c : Cfg) (dt : Q) (n : Nat) (s s' : St) (t0 : Q) (b : Bool)
+    (h0 : lastTime s = some t0) (h : run c dt n none { s with locked := b } = .ok s') :
+    s'.recs.map (·.time) = s.recs.map (·.time) ++ grid t0 dt n :=
+  continued_axis c dt n { s with locked := b } s' t0 (by simpa [lastTime] using h0) h
+
 /-- with a stop condition the appended instants are a prefix of the grid -/
 theorem stopped_axis_prefix (c : Cfg) (dt : Q) (n : Nat) (f : Rec → Bool) (s s' : St) (t0 : Q)
     (h0 : lastTime s = some t0) (h : run c dt n (some f) s = .ok s') :
